@@ -175,8 +175,8 @@ theorem stab_startP {env : Env} {rk : Nat → Nat} {fuel : Nat} {s s0 t1 t2 : St
     rw [isStale_V F2, isStale_V F0, PV.staleOf]
   have KF0 : PKF s s0 := by
     rw [hs0]
-    exact ⟨XF.of_nodes rfl rfl rfl, fun _ => rfl, fun _ => rfl, rfl, rfl, rfl⟩
-  have KF2 : PKF s0 t2 := ⟨X, fun m => (hnk m).2.2.2.1, stale2, PV.top, hpk, PV.vars⟩
+    exact ⟨XF.of_nodes rfl rfl rfl, fun _ => rfl, fun _ => rfl, rfl, rfl, rfl, fun _ => rfl⟩
+  have KF2 : PKF s0 t2 := ⟨X, fun m => (hnk m).2.2.2.1, stale2, PV.top, hpk, PV.vars, PV.recomputedAt⟩
   have KF := KF0.trans KF2
   have PK2 : PKOK env t2 := PKOK.of_frame KF Q.pk hrec
     (fun m o ho => by obtain ⟨ob, h3, h4, -⟩ := hlist m o ho; exact ⟨ob, h3, h4⟩)
